@@ -247,12 +247,15 @@ _RE_FAIL = re.compile(r"=\s*\[(.*?)\]\s*:\s*list nat", re.S)
 def coq_eval(tag, imports, cases, shard=400, timeout=900):
     """cases: list of (model_term, expected_python_value_or_V_text).
     Evaluates [V_eqb model_term expected] for every case with vm_compute in
-    parallel shards.  Returns (failing_indices, log)."""
-    cdir = os.path.join(BUILD, "cases")
+    parallel shards.  Returns (failing_indices, log).  The shard files live
+    in a directory of this process (concurrent runs do not disturb each
+    other) and are removed afterwards; a shard that does not compile is
+    tried once more after a rebuild (a concurrent build may have replaced a
+    .vo under it) before it counts."""
+    import shutil
+    cdir = os.path.join(BUILD, "cases", "p%d" % os.getpid())
+    shutil.rmtree(cdir, ignore_errors=True)
     os.makedirs(cdir, exist_ok=True)
-    for old in os.listdir(cdir):
-        if old.startswith(tag + "_"):
-            os.unlink(os.path.join(cdir, old))
     files = []
     for k in range(0, len(cases), shard):
         name = "%s_%d" % (tag, k // shard)
@@ -271,36 +274,48 @@ def coq_eval(tag, imports, cases, shard=400, timeout=900):
             f.write(";\n".join(body))
             f.write("].\nEval vm_compute in (failures cases).\n")
         files.append((k, name))
-    procs = []
-    fails, log = [], []
     maxpar = 16
 
-    def reap(entry):
-        k, name, proc = entry
-        try:
-            out, _ = proc.communicate(timeout=timeout)
-        except subprocess.TimeoutExpired:
-            proc.kill()
-            out, _ = proc.communicate()
-            out = (out or "") + "\nTIMEOUT"
-        m = _RE_FAIL.search(out or "")
-        if proc.returncode != 0 or not m:
-            log.append("%s: coqc failed:\n%s" % (name, (out or "")[-3000:]))
-            fails.append(-(k + 1))
-        else:
-            for tok in re.findall(r"\d+", m.group(1)):
-                fails.append(k + int(tok))
-    for k, name in files:
-        while len(procs) >= maxpar:
-            reap(procs.pop(0))
-        proc = subprocess.Popen(
-            ["coqc", "-Q", COQ, "PW", "-Q", cdir, "Cases",
-             os.path.join(cdir, name + ".v")],
-            stdout=subprocess.PIPE, stderr=subprocess.STDOUT, text=True,
-            cwd=cdir, preexec_fn=_big_stack)
-        procs.append((k, name, proc))
-    for entry in procs:
-        reap(entry)
+    def run(todo):
+        procs, fails, log, broken = [], [], [], []
+
+        def reap(entry):
+            k, name, proc = entry
+            try:
+                out, _ = proc.communicate(timeout=timeout)
+            except subprocess.TimeoutExpired:
+                proc.kill()
+                out, _ = proc.communicate()
+                out = (out or "") + "\nTIMEOUT"
+            m = _RE_FAIL.search(out or "")
+            if proc.returncode != 0 or not m:
+                log.append("%s: coqc failed:\n%s" % (name,
+                                                    (out or "")[-3000:]))
+                broken.append((k, name))
+            else:
+                for tok in re.findall(r"\d+", m.group(1)):
+                    fails.append(k + int(tok))
+        for k, name in todo:
+            while len(procs) >= maxpar:
+                reap(procs.pop(0))
+            proc = subprocess.Popen(
+                ["coqc", "-Q", COQ, "PW", "-Q", cdir, "Cases",
+                 os.path.join(cdir, name + ".v")],
+                stdout=subprocess.PIPE, stderr=subprocess.STDOUT, text=True,
+                cwd=cdir, preexec_fn=_big_stack)
+            procs.append((k, name, proc))
+        for entry in procs:
+            reap(entry)
+        return fails, log, broken
+    try:
+        fails, log, broken = run(files)
+        if broken:
+            build()
+            fails2, log, broken = run(broken)
+            fails += fails2
+        fails += [-(k + 1) for k, _ in broken]
+    finally:
+        shutil.rmtree(cdir, ignore_errors=True)
     return sorted(fails), "\n".join(log)
 
 
@@ -380,6 +395,12 @@ class Ctx:
         with Lock():    # generated files, .vo and the props file as one unit
             ok, log = build(locked=True)
             obl = compile_props(self.prop, locked=True)
+            if not obl["ok"]:
+                # a failure must be reproducible: build and compile once
+                # more (stale files left by an interrupted or concurrent
+                # run must not turn into an alarm)
+                ok, log = build(locked=True)
+                obl = compile_props(self.prop, locked=True)
         self.obl = obl
         if gate:
             obl["ok"] = False
